@@ -52,6 +52,12 @@ CLAIMS = {
                   "JadeImpl and on real traces.", "5-C09"),
 }
 
+CLAIMS["C10"] = _claim("ClusterStore.tla: all interleavings of load/promote/demote/update/job-status-only/cancel operations "
+                       "by 2-3 handles on 2 hosts incl. handles loaded before others changed the state (one role holder, "
+                       "promotion refused while held, stale writes rejected with all four files unchanged); behaviours and random "
+                       "schedules executed on the real Cluster class with byte comparison of the files around every operation; "
+                       "promote/status events of whole submissions.", "5-C10")
+
 NOT_YET = "check not built yet in this round (the specification and harness are being extended property by property)"
 
 
